@@ -25,17 +25,6 @@ Definition pcm_bytes (F : file) : list N := bdata F (f_slots F).
 Definition chan_pcm (F : file) (c : nat) : list Z := cdata c (f_slots F).
 Definition total_frames (F : file) : N := sumlen (f_slots F).
 
-(* every nch-th sample starting at c: de-interleaving *)
-Fixpoint column (nch c : nat) (fuel : nat) (xs : list Z) : list Z :=
-  match fuel with
-  | O => []
-  | S k => match nth_error xs c with
-           | Some x => x :: column nch c k (skipn nch xs)
-           | None => []
-           end
-  end.
-Definition deinterleave (nch c : nat) (xs : list Z) : list Z := column nch c (length xs) xs.
-
 (* two's complement of s in w bytes, least significant byte first *)
 Fixpoint le_bytes (w : nat) (u : N) : list N :=
   match w with O => [] | S k => u mod 256 :: le_bytes k (u / 256) end.
@@ -63,6 +52,9 @@ Record valid_file (F : file) : Prop := {
   v_width : 1 <= bytes_per_sample (f_bps F) <= 4;
   v_good : Forall (good_slot (f_channels F)) (f_slots F);
   v_total : match f_total F with Some t => t = total_frames F | None => True end;
+  (* with a known total only the last block may have 14 samples or fewer (the decoder enforces it) *)
+  v_blocks : f_total F <> None -> forall pre s post, f_slots F = pre ++ s :: post -> post <> [] ->
+             14 < pcm_frames (slot_frame s);
   v_truthful : truthful F;
   v_range : total_frames F * bytes_per_pcm_frame F < U64;
   v_usize : f_usize_bits F = 64;
